@@ -11,7 +11,19 @@ def _is_stix(x):
     return hasattr(x, '_inner') and hasattr(x, 'serialize')
 
 
+_SCALARS = (str, int, float, bool, type(None), bytes)
+
+
 def fingerprint(x, _depth=0):
+    t = type(x)
+    if t in _SCALARS:
+        return (t.__name__, x)
+    if _depth > 60:
+        return ('too-deep',)
+    if t is dict:
+        return ('dict', 'dict', tuple([(k, fingerprint(v, _depth + 1)) for k, v in x.items()]))
+    if t is list:
+        return ('list', tuple([fingerprint(v, _depth + 1) for v in x]))
     if _depth > 60:
         return ('too-deep',)
     if _is_stix(x):
